@@ -4,7 +4,7 @@ import vcheck
 from checks import _schema_common as sc
 
 PID = "C02"
-MODULES = ["BeffVerif.Props.C02", "BeffVerif.Props.C02Eval", "BeffVerif.Props.C02Frag", "BeffVerif.Props.C02Sound", "BeffVerif.Props.C02Complete", "BeffVerif.Props.C16Refs"]
+MODULES = ["BeffVerif.Props.C02", "BeffVerif.Props.C02Eval", "BeffVerif.Props.C02Frag", "BeffVerif.Props.C02Sound", "BeffVerif.Props.C02Complete", "BeffVerif.Props.C16Refs", "BeffVerif.Props.Consts"]
 AUDIT = "BeffVerif/Audit/C02.lean"
 TAGS = ("c02.",)
 MODE = "schema"
@@ -74,7 +74,7 @@ def run(chk):
     return vcheck.generic_run(chk, MODULES, AUDIT, passes,
         [PID + ": Model/{Schema,Hash}.lean model schema() of every class, SchemaPrintingContext, tryMergeAllOfObjectSchemas, removeNullUnionBranch, synthetic variant names (32-bit hash) by hand",
          PID + ": python jsonschema 4.x (Draft 2020-12) with the harness' custom formats is the judge of schema validity in the search; function types are excluded from the generators"],
-        OPEN, RULE)
+        OPEN, RULE, translators=("client_consts.py",))
 
 def replay(chk, path):
     chk.build_js(); chk.build_lean(MODULES)
